@@ -428,7 +428,7 @@ func init() {
 				"alphabets put >=2 entries into every iterated map: two token ids per chain in the pool at batching time, two event nonces / two conflicting claims in one tally, first vote of a new validator, power change (PowerDiff), two price sets, two holder lists, several validators",
 				"maps of <=4 keys: all n! orders; larger: reverse, rotations, adjacent swaps; deviation bound 1 (quick) / 2 (thorough) per transition",
 				"every transition is additionally executed (a) after serving every gRPC query of both modules on the committed and the working state (also between EndBlock and Commit) and (b) on a fresh instance (new keepers, codecs, stores) restored from the same state; both must reproduce the digest of state and events: process-local state outside the store would show",
-				"SDK-internal maps are not instrumented (cachekv sorts before writing); fresh-instance determinism is covered by the straight-line replays from genesis, which must reproduce the explored state digests",
+				"of the SDK's own maps the one that decides emitted bytes is instrumented (types/events.go: typed events); the others are not (cachekv sorts before writing); fresh-instance determinism is covered by the straight-line replays from genesis, which must reproduce the explored state digests",
 				"process-global state: every package-level variable of the module packages (generated code excepted) is listed by tools/maprw; the ones the code can modify after initialisation get a scheduling point before and after every statement that mentions them, and a block transition is interleaved with a concurrent query or transaction simulation (separate instances restored from one state: only process-global memory is shared) under every schedule with at most 1 (quick) / 2 (thorough) preemptions at those points; what the variables refer to is hashed by reflection at the start and at the end of the check",
 			}
 	})
